@@ -56,8 +56,8 @@ class C06(Prop):
     THEOREMS = ["AwProofs.C06.bucket_ops_durable", "AwProofs.C06.bucket_ops_durable_delete", "AwProofs.C06.bucket_ops_durable_update_missing", "AwProofs.C06.cur_is_last_of_history", "AwProofs.C06.durable_is_past_state", "AwProofs.C06.durable_is_prefix_minus_pending", "AwProofs.C06.eager_always_durable", "AwProofs.C06.eager_every_op_durable", "AwProofs.C06.insertMany_can_split", "AwProofs.C06.pending_bounded", "AwProofs.C06.pending_bounded_inside_insertMany", "AwProofs.C06.pending_consistent", "AwProofs.C06.single_op_atomic"]
     MODEL_NEEDS_IMPL = True
     WORKERS = 12
-    LEVEL_TEXT = "Lean 4 invariants of the commit machine over the sqlite table model: durable state is a past connection state, bucket operations are durable on return, at most 50 event writes pending at operation boundaries"
-    LEVEL_NOTE = "trusts: Lean kernel; SQLite atomic commit/WAL recovery and Python sqlite3 implicit transactions (exercised by real SIGKILL runs); peewee autocommit"
+    LEVEL_TEXT = 'Lean 4 invariants of the commit machine over the sqlite table model, for all histories: durable_is_past_state / durable_is_prefix_minus_pending (the reopened database is the state after a prefix of the elementary writes), bucket_ops_durable, single_op_atomic, pending_bounded (<= 50, deletions counted), eager_every_op_durable, insertMany_can_split (witness that bulk inserts may be split); model compared with the real store through a second connection after every operation and by SIGKILL at every traced SQL statement (sqlite and peewee)'
+    LEVEL_NOTE = 'trusts: Lean kernel + 3 standard axioms; SQLite atomic commit / WAL recovery and Python sqlite3 implicit transactions (exercised by the real kill runs); peewee autocommit (no model: every completed operation durable is checked on the real store)'
     TECHNIQUE = "Lean 4 invariant proof over a commit-machine model + differential correspondence (second-connection view, SIGKILL at every SQL statement)"
     RULE = (
         "view: seeded random histories (bursts of event writes incl. long runs of deletes, bulk inserts with upserts, "
